@@ -16,6 +16,11 @@ def cases(tier, seed):
     rng = gen.rng_for(seed, "c13")
     yield {"f": "half_adder"}
     yield {"f": "full_adder"}
+    # a caller edits a block it got earlier; blocks generated afterwards must be unaffected
+    yield {"f": "half_adder", "dirty": True}
+    yield {"f": "full_adder", "dirty": True}
+    yield {"f": "adder", "w": 2, "ci": True, "co": True, "mode": "all", "dirty": True}
+    yield {"f": "popcount", "w": 3, "mode": "all", "dirty": True}
     for w in range(1, 5 if tier == "quick" else 6):
         for ci in (False, True):
             for co in (False, True):
@@ -51,6 +56,15 @@ def run_case(case):
     f = case["f"]
     fails = []
     rng = gen.rng_for(case.get("salt", 0), "c13case", f)
+
+    if case.get("dirty"):
+        for mk in (cg.logic.half_adder, cg.logic.full_adder, lambda: cg.logic.adder(2, True, True)):
+            blk = mk()
+            victim = next((n for n in sorted(blk.graph) if blk.graph.nodes[n]["type"] in ("and", "xor", "or")), None)
+            if victim is not None:
+                blk.set_type(victim, "nor")
+            blk.add("zz_extra", "input")
+            blk.set_output("zz_extra")
 
     def lintchk(c, what):
         lv = spec.lint_violations(c)
